@@ -30,6 +30,19 @@ Proof.
 Qed.
 Print Assumptions C15_bounded.
 
+(* Without speculative executions nothing needs to be assumed about send_request(): it may come late (after the timeout
+   timer already fired: the PYTHON-853 path, _on_timeout re-arming itself 3 x 10 ms while no connection is known) or never. *)
+Theorem C15_bounded_without_speculation : forall (c : config) (T : Z) (h : list op),
+  c_timeout c = Some T -> 0 <= T -> c_specs c = [] ->
+  punctual true true (init c) h ->
+  let s := run true true (init c) h in
+  final_set s = false -> now s <= pstart s + T + 30.
+Proof.
+  intros c T h Hc HT Hs Hp s Hf. apply (CInv_bound T); [|exact Hf].
+  apply CInv_run; [exact HT|apply CInv_init_nospec; assumption|exact Hp].
+Qed.
+Print Assumptions C15_bounded_without_speculation.
+
 (* the hypothesis only orders events, it never stops the clock for good: whenever a tick of d is refused, some live timer is
    due strictly within d, and it can fire now or after an admissible shorter tick to its due time *)
 Theorem C15_fairness_satisfiable : forall (s : state) (d : Z), 0 <= d ->
@@ -68,3 +81,11 @@ Proof.
     + inversion Hj. subst t. discriminate.
     + inversion Hj. subst t. vm_compute. discriminate.
 Qed.
+
+(* the bound T + 30 is attained: no host can be reached before the timeout, the handler re-arms itself three times *)
+Example C15_bound_tight :
+  let c := mkConfig [1] (Some 5) [] [(1, PNoConn)] 0 in
+  let h := [Tick 5; Fire 0; Tick 10; Fire 1; Tick 10; Fire 2; Tick 9] in
+  final_set (run true true (init c) h) = false /\ now (run true true (init c) h) = 34
+  /\ fexc (run true true (init c) (h ++ [Tick 1; Fire 3])) = Some 1.
+Proof. vm_compute. repeat split. Qed.
